@@ -1,0 +1,27 @@
+//go:build verif
+
+// Contracts for govc (comment-only file; see /verif/DESIGN.md section 3).
+package sign
+
+// Output gates (C01). Receiver: the result (and the signature sent to the sender) is produced only for a
+// signature the textbook ECDSA equation accepts for the configured public key and this session's hash.
+//@ func (*round2R).Finalize
+//@   assert_at[C01] ResultRound "return r.ResultRound(&sig)": ecdsa_valid(sig.R, sig.S, r.config.Public, r.hash)
+//@   assert_at[C01] ResultRound "return r.ResultRound(&sig)": typeis(arg1, *ecdsa.Signature) && arg1.(*ecdsa.Signature).R == sig.R && arg1.(*ecdsa.Signature).S == sig.S
+
+// Sender: a received signature is accepted only if valid for (config.Public, hash); the stored signature is the
+// verified one; the result is the stored one (StoreMessage runs only after VerifyMessage accepted: C03 handler gate).
+//@ func (*round2S).VerifyMessage
+//@   requires r != nil && r.round1S != nil && r.config != nil && r.config.Public != nil
+//@   requires typeis(msg.Content, *message2R) && msg.Content.(*message2R) != nil ==> (msg.Content.(*message2R).Sig.R != nil && msg.Content.(*message2R).Sig.S != nil)
+//@   modifies nothing
+//@   allocates
+//@   let body = msg.Content.(*message2R)
+//@   ensures[C01,C03] result == nil ==> typeis(msg.Content, *message2R) && body != nil && ecdsa_valid(body.Sig.R, body.Sig.S, r.config.Public, r.hash)
+//@ func (*round2S).StoreMessage
+//@   requires r != nil && typeis(msg.Content, *message2R) && msg.Content.(*message2R) != nil
+//@   let body = msg.Content.(*message2R)
+//@   ensures[C01,C03] r.Sig.R == body.Sig.R && r.Sig.S == body.Sig.S
+//@ func (*round2S).Finalize
+//@   requires r != nil && r.round1S != nil && r.Helper != nil
+//@   assert_at[C01] ResultRound "return r.ResultRound(&r.Sig)": typeis(arg1, *ecdsa.Signature) && arg1.(*ecdsa.Signature) == r.Sig
